@@ -169,7 +169,9 @@ func (m *Variant) Decode(b []byte) (int, error) {
 	// check for dimensions of multi-dimensional array
 	if m.Has(VariantArrayDimensions) {
 		m.arrayDimensionsLength = buf.ReadInt32()
-		if m.arrayDimensionsLength < 0 {
+		// every dimension takes four bytes: a count beyond what is left
+		// to read cannot be satisfied and must not be allocated
+		if m.arrayDimensionsLength < 0 || int(m.arrayDimensionsLength) > buf.Len()/4 {
 			return buf.Pos(), StatusBadEncodingLimitsExceeded
 		}
 		m.arrayDimensions = make([]int32, m.arrayDimensionsLength)
